@@ -14,7 +14,7 @@
                 Send: SIdle -err=0-> LSendCtx, SHold -err=1-> LSendFail; Receive: (LRecvPoll) LRecvFail for err=1, LRecvCtx for err=0
      cs w | ct w | cd w          LCloseSock / LCleanTake -> ct:<n> / LCleanDone  (cs inserted before ct/cd when needed)
      pr c idx   LPeerReply       pg c LPeerGone
-     ac | as    LAbortCancel / LAbortSwap (-> as:<j|-> the closer it created)
+     ac | as    LAbortCancel / LAbortSwap (-> as:<j|-> the closer it created);  asc = as, then LCloseSock of that closer
    output: one token per op; "!<k>:<op>" and stop when an op (or an inserted step) is not enabled; then
      "| pcs=<one token per caller> stuck=<k,..> pend=<n> pool=<c|-> late_ok=<b> reuse_ok=<b> alive=<senders>/<receivers> zombies=<c,..>" *)
 open Common
@@ -168,6 +168,15 @@ let run line =
           let before = Stdlib.List.length (!st).CallLife.aborters in
           if step k "as" CallLife.LAbortSwap then
             say (if Stdlib.List.length (!st).CallLife.aborters > before then Printf.sprintf "as:%d" before else "as:-");
+          go (k + 1) r
+      | "asc" :: r ->
+          (* Transport.Abort: swap the pool, then conn.Close runs once.Do(close the socket) at once *)
+          let before = Stdlib.List.length (!st).CallLife.aborters in
+          if step k "as" CallLife.LAbortSwap then begin
+            if Stdlib.List.length (!st).CallLife.aborters > before then begin
+              ignore (step k "cs(abort)" (CallLife.LCloseSock (CallLife.WA (n_ before))));
+              say (Printf.sprintf "as:%d" before) end
+            else say "as:-" end;
           go (k + 1) r
       | op :: _ -> failwith ("c10: bad op " ^ op) in
     go 0 ops;
